@@ -26,6 +26,7 @@ import json
 import time
 
 from vlib import common as V
+from vlib import nasty as N
 
 MAXITEMS = 4000          # cap when forcing a result
 INTS = (0, 1, 2, 3, -1, -2, 4, 5, 7, 10, 12)
@@ -124,10 +125,27 @@ def cv(c):
         return f"VStr {V.cstr(c)}"
     if isinstance(c, list):
         return "VList false " + V.clist(("(" + cv(y) + ")" for y in c), "v")
-    if isinstance(c, dict) and "q" in c and abs(c["q"][0]) < 10 ** 15 and c["q"][1] < 10 ** 15:
-        # a rational is a NUMBER for vy_type: a VNum far outside the integers that occur
-        return f"VNum ({10 ** 40 + (c['q'][0] + 10 ** 15) * 10 ** 20 + c['q'][1]})%Z"
+    if isinstance(c, dict) and "q" in c and abs(c["q"][0]) < 10 ** 22 and c["q"][1] < 10 ** 22:
+        # a rational is a NUMBER for vy_type: a VNum in a reserved range (kept short:
+        # coqc reads a 400-digit literal in a quarter of a second)
+        return f"VNum ({10 ** 47 + (c['q'][0] + 10 ** 22) * 10 ** 23 + c['q'][1]})%Z"
     return f"VStr {V.cstr(chr(1) + json.dumps(c, sort_keys=True))}"
+
+
+def costly_literal(c):
+    """Would the Coq literal of this canonical value be slow to read (coqc converts decimal
+    literals in quadratic time)?  Such cases stay in the oracle, they only skip the ties."""
+    if isinstance(c, bool):
+        return False
+    if isinstance(c, int):
+        return abs(c) >= 10 ** 60
+    if isinstance(c, str):
+        return len(c) > 300
+    if isinstance(c, list):
+        return any(costly_literal(y) for y in c)
+    if isinstance(c, dict):
+        return any(costly_literal(y) for y in c.values())
+    return False
 
 
 def cv_in(spec, mode, top=True):
@@ -297,33 +315,55 @@ def run_case(item):
 # input generation (everything from env.rng)
 # ----------------------------------------------------------------------------
 
-def gen_leaf(rng, profile):
-    r = rng.random()
-    if profile == "int" or (profile == "rat" and r < 0.5) or (profile == "mix" and r < 0.4):
-        return rng.choice(INTS[:6]) if rng.random() < 0.6 else rng.choice(INTS)
-    if profile == "rat" or (profile == "mix" and r < 0.6):
-        return {"q": list(rng.choice(RATS))}
-    return rng.choice(STRS)
+PROFILES = (("int", 0.22), ("rat", 0.08), ("str", 0.10), ("mix", 0.10), ("twin", 0.28), ("nasty", 0.22))
+PROFILE_TEXT = ("22% small integers only, 8% integers+rationals, 10% strings only, 10% mixed, 28% spelling twins (a value and the "
+                "string that spells it, repeated, in one list at every level: 3/'3', 1/2/'1/2', 0/'0'/'', [1, 2]/'[1, 2]'), 22% numeric "
+                "extremes (integers around 2**53, 2**63, 2**64, 10**20; rationals within 1e-9..1e-15 of an integer; tiny; huge denominators)")
 
 
-def gen_list(rng, depth, maxlen, profile, length=None):
-    n = length if length is not None else (rng.randint(1, maxlen) if rng.random() < 0.9 else 0)
-    out = []
-    for _ in range(n):
-        if depth > 1 and rng.random() < 0.5:
-            out.append(gen_list(rng, depth - 1, maxlen, profile))
-        else:
-            out.append(gen_leaf(rng, profile))
-    return out
+class Profile:
+    """The kind of leaves one case draws: a name and, for twins, the shared base values."""
+
+    def __init__(self, rng):
+        r, acc = rng.random(), 0.0
+        self.name = PROFILES[-1][0]
+        for name, w in PROFILES:
+            acc += w
+            if r < acc:
+                self.name = name
+                break
+        self.bases = N.twin_bases(rng) if self.name == "twin" else None
+
+    def leaf(self, rng):
+        p = self.name
+        if p == "twin":
+            return N.twin_leaf(rng, self.bases) if rng.random() < 0.8 else rng.choice(INTS[:6])
+        if p == "nasty":
+            return N.pick_number(rng, 0.6)
+        r = rng.random()
+        if p == "int" or (p == "rat" and r < 0.5) or (p == "mix" and r < 0.4):
+            return rng.choice(INTS[:6]) if rng.random() < 0.6 else rng.choice(INTS)
+        if p == "rat" or (p == "mix" and r < 0.6):
+            return {"q": list(rng.choice(RATS))}
+        return rng.choice(STRS)
+
+    def list(self, rng, depth, maxlen, length=None):
+        if self.name == "twin" and (length is None or length >= 2):
+            return N.twin_list(rng, self.bases, depth, maxlen, length)
+        if self.name == "nasty" and (length is None or length >= 1):
+            return N.nasty_number_list(rng, depth, maxlen, length)
+        n = length if length is not None else (rng.randint(1, maxlen) if rng.random() < 0.9 else 0)
+        out = []
+        for _ in range(n):
+            if depth > 1 and rng.random() < 0.5:
+                out.append(self.list(rng, depth - 1, maxlen))
+            else:
+                out.append(self.leaf(rng))
+        return out
 
 
 def spec_depth(s):
     return 1 + max([spec_depth(x) for x in s] or [0]) if isinstance(s, list) else 0
-
-
-def pick_profile(rng):
-    r = rng.random()
-    return "int" if r < 0.45 else "rat" if r < 0.65 else "str" if r < 0.8 else "mix"
 
 
 def gen_inputs(env):
@@ -331,35 +371,141 @@ def gen_inputs(env):
     rng = env.rng
     maxdepth = env.budget(2, 3)
     maxlen = env.budget(3, 5)
-    n1 = env.budget(48, 260)
-    n2 = env.budget(22, 110)
+    n1 = env.budget(84, 320)
+    n2 = env.budget(40, 140)
     modes1 = env.budget(["E", "L"], ["E", "L", "T", "I"])
     modes2 = env.budget([("E", "E"), ("L", "L"), ("E", "L"), ("L", "E")],
                         [("E", "E"), ("L", "L"), ("E", "L"), ("L", "E"), ("T", "I"), ("I", "T")])
     mon, dy = [], []
     fixed1 = [[], [0], [1, 2, 3], [[1, 2], [3]], [[], [1]], ["a", "ab"], [1, "a", {"q": [1, 2]}], [[1, [2, 3]], 4][: maxdepth + 1]]
-    specs1 = fixed1 + [gen_list(rng, rng.randint(1, maxdepth), maxlen, pick_profile(rng)) for _ in range(n1 - len(fixed1))]
+    fixed1 += [list(x) for x in N.FIXED_TWIN_LISTS + N.FIXED_EXTREME_LISTS]
+    specs1 = list(fixed1)
+    while len(specs1) < n1:
+        specs1.append(Profile(rng).list(rng, rng.randint(1, maxdepth), maxlen))
     for s in specs1:
         for m in modes1:
             mon.append(("list", [s], [m]))
+    # the fixed lists against a scalar that is a twin of / equal to one of their items, on both sides
+    fixed2 = []
+    for lst in N.FIXED_TWIN_LISTS + N.FIXED_EXTREME_LISTS:
+        leaves = [x for x in N.leaves_of(list(lst))]
+        for sc in (2, leaves[0], N.spell(leaves[0])):
+            fixed2.append(("list-scalar", [list(lst), sc]))
+            fixed2.append(("scalar-list", [sc, list(lst)]))
+        fixed2.append(("list-list-equal", [list(lst), list(reversed(lst))]))
+        fixed2.append(("list-list-unequal", [list(lst) + ["0", 0], list(lst)]))
+    fixed2 = fixed2[:: env.budget(3, 1)]
+    for shape, args in fixed2:
+        for ms in modes2[:2]:
+            dy.append((shape, args, list(ms)))
     for shape in ("list-scalar", "scalar-list", "list-list-equal", "list-list-unequal"):
         for i in range(n2):
-            prof = pick_profile(rng)
+            prof = Profile(rng)
             d = rng.randint(1, maxdepth)
             if shape == "list-scalar":
-                args = [gen_list(rng, d, maxlen, prof), gen_leaf(rng, prof)]
+                args = [prof.list(rng, d, maxlen), prof.leaf(rng)]
             elif shape == "scalar-list":
-                args = [gen_leaf(rng, prof), gen_list(rng, d, maxlen, prof)]
+                args = [prof.leaf(rng), prof.list(rng, d, maxlen)]
             elif shape == "list-list-equal":
                 n = rng.randint(0, maxlen) if i else 0
-                args = [gen_list(rng, d, maxlen, prof, n), gen_list(rng, rng.randint(1, maxdepth), maxlen, prof, n)]
+                args = [prof.list(rng, d, maxlen, n), prof.list(rng, rng.randint(1, maxdepth), maxlen, n)]
             else:
                 n = rng.randint(0, maxlen)
                 m = rng.choice([k for k in range(0, maxlen + 1) if k != n])
-                args = [gen_list(rng, d, maxlen, prof, n), gen_list(rng, rng.randint(1, maxdepth), maxlen, prof, m)]
+                args = [prof.list(rng, d, maxlen, n), prof.list(rng, rng.randint(1, maxdepth), maxlen, m)]
             for ms in modes2:
                 dy.append((shape, args, list(ms)))
     return mon, dy
+
+
+# ----------------------------------------------------------------------------
+# which extreme values an element can take at all (some scalar overloads build a
+# string / a range / a factorial as long as the number: those never finish)
+# ----------------------------------------------------------------------------
+
+PROBE_PARTNERS = (0, 2, "ab")
+
+
+def run_probe(item):
+    fnname, args = item
+    from vyxal import elements as E
+    from vyxal.context import Context
+    patch_random()
+    t0 = time.time()
+    try:
+        canon(getattr(E, fnname)(*[build(a, "E") for a in args], ctx=Context()))
+    except V.Timeout:
+        raise
+    except BaseException:  # noqa: BLE001  (a rejected type is handled per case)
+        pass
+    return time.time() - t0
+
+
+def probe_extremes(env, gd):
+    """-> {function name: set of (argument position, json of the value)} for the extreme
+    values on which a scalar application does not finish (soft timeout 1.5 s; calls that
+    block inside C are killed).  Two rounds, to keep the number of killed calls small: one
+    representative huge integer per (function, position) first -- when that one does not
+    finish every huge integer is excluded there -- then all remaining values."""
+    by = {r["key"]: r for r in gd["entries"]}
+    pool = [x for x in N.NASTY_NUMBERS] + [x for x in N.TWIN_BASES if N.is_extreme(x) and x not in N.NASTY_NUMBERS]
+    huge = [x for x in pool if isinstance(x, int)]
+    rep = 2 ** 53 + 1
+    fns = []
+    for key in gd["curated"]:
+        r = by[key]
+        if (r["fn"], r["arity"]) not in fns:
+            fns.append((r["fn"], r["arity"]))
+
+    def items_for(fn, arity, x, positions):
+        out = []
+        if arity == 1:
+            return [((fn, [x]), (fn, 0, x))] if 0 in positions else []
+        for p in PROBE_PARTNERS + (x,):
+            if 0 in positions:
+                out.append(((fn, [x, p]), (fn, 0, x)))
+            if 1 in positions:
+                out.append(((fn, [p, x]), (fn, 1, x)))
+        return out
+
+    t0 = time.time()
+    slow = collections.defaultdict(set)
+    n = 0
+    round1 = [it for fn, ar in fns for it in items_for(fn, ar, rep, (0, 1))]
+    res = V.pmap(run_probe, [a for a, _ in round1], timeout=1.5, hard=5)
+    n += len(round1)
+    bad_pos = set()
+    for (_, (fn, pos, x)), (st, _) in zip(round1, res):
+        if st != "ok":
+            bad_pos.add((fn, pos))
+    for fn, pos in bad_pos:
+        for x in huge:
+            slow[fn].add((pos, json.dumps(x, sort_keys=True)))
+    round2 = []
+    for fn, ar in fns:
+        for x in pool:
+            positions = [p for p in range(ar) if not (isinstance(x, int) and (fn, p) in bad_pos)]
+            if x != rep:
+                round2 += items_for(fn, ar, x, positions)
+    res = V.pmap(run_probe, [a for a, _ in round2], timeout=1.5, hard=5)
+    n += len(round2)
+    for (_, (fn, pos, x)), (st, _) in zip(round2, res):
+        if st != "ok":
+            slow[fn].add((pos, json.dumps(x, sort_keys=True)))
+    V.log(f"[C08] probed {n} scalar applications on extreme values in {time.time() - t0:.1f}s; "
+          f"{sum(len(v) for v in slow.values())} (function, position, value) excluded: they do not finish")
+    env.note("extreme_values_excluded_as_too_slow", {fn: sorted({f"arg{p}:{x}" for p, x in v}) for fn, v in slow.items()})
+    return slow
+
+
+def usable(slow_fn, args):
+    if not slow_fn:
+        return True
+    for pos, a in enumerate(args):
+        for leaf in N.leaves_of(a):
+            if N.is_extreme(leaf) and (pos, json.dumps(leaf, sort_keys=True)) in slow_fn:
+                return False
+    return True
 
 
 # ----------------------------------------------------------------------------
@@ -374,6 +520,8 @@ def oracle(env, gd, mon, dy):
     V.import_repo()
     from vyxal import elements as E  # noqa: F401  (imported before the workers fork)
     by = {r["key"]: r for r in gd["entries"]}
+    slow = probe_extremes(env, gd)
+    dropped = collections.Counter()
     exempt = collections.defaultdict(list)
     for x in gd.get("doc_exempt", []):
         exempt[x["key"]].append(x["tags"])
@@ -381,10 +529,13 @@ def oracle(env, gd, mon, dy):
     for key in gd["curated"]:
         r = by[key]
         for shape, args, modes in (mon if r["arity"] == 1 else dy):
+            if not usable(slow.get(r["fn"]), args):
+                dropped[key] += 1
+                continue
             items.append((r["fn"], args, modes, exempt.get(key, [])))
             meta.append((key, shape))
     t0 = time.time()
-    res = V.pmap(run_case, items, timeout=env.budget(6, 10))
+    res = V.pmap(run_case, items, timeout=env.budget(5, 8), hard=env.budget(14, 22))
     V.log(f"[C08] oracle: {len(items)} cases in {time.time() - t0:.1f}s")
     per = collections.defaultdict(lambda: collections.Counter())
     skips = collections.defaultdict(collections.Counter)
@@ -412,6 +563,10 @@ def oracle(env, gd, mon, dy):
             continue
         depth_hist[max(spec_depth(a) for a in args)] += 1
         shape_hist[shape + "/" + "".join(modes)] += 1
+        if any(N.has_twin_pair(a) for a in args):
+            type_hist["one list holds a value and the string that spells it"] += 1
+        if any(N.is_extreme(x) for a in args for x in N.leaves_of(a)):
+            type_hist["contains a numeric extreme"] += 1
         if val["s"] == "ok":
             c["ok"] += 1
             keys.append(f"{key}|{json.dumps(args, sort_keys=True)}|{''.join(modes)}")
@@ -431,8 +586,12 @@ def oracle(env, gd, mon, dy):
     env.note("failures_by_class", dict(nfail))
     env.note("input_distribution", {"max_nesting_depth": dict(depth_hist), "shape/representation": dict(shape_hist),
                                     "max_depth": env.budget(2, 3), "max_length": env.budget(3, 5),
-                                    "leaf_pools": {"ints": INTS, "rationals": RATS, "strings": STRS},
-                                    "profiles": "45% integers only, 20% integers+rationals, 15% strings only, 20% mixed"})
+                                    "leaf_pools": {"ints": INTS, "rationals": RATS, "strings": STRS,
+                                                   "nasty_numbers (vlib/nasty.py)": [N.spell(x) for x in N.NASTY_NUMBERS],
+                                                   "twin_bases": [N.spell(x) for x in N.TWIN_BASES], "awkward_strings": N.AWKWARD_STRINGS},
+                                    "evaluated_cases_by_family": dict(type_hist),
+                                    "cases_dropped_because_an_extreme_value_is_too_slow_for_the_element": dict(dropped),
+                                    "profiles": PROFILE_TEXT})
     never = [k for k, c in per.items() if c["ok"] + c["fail"] == 0]
     env.note("elements_without_an_evaluated_case", never)
     return passed
@@ -484,8 +643,9 @@ def dynamic_only(env, gd, mon, dy):
             rec["dynamic"] = "not run (no table entry or arity outside 1..2)"
             out[u["key"]] = rec
             continue
-        cases = [c for c in (mon if e["arity"] == 1 else dy)][: env.budget(40, 160)]
-        res = V.pmap(run_template_case, [(e["text"], e["arity"], a, m) for _, a, m in cases], timeout=5)
+        cases = [c for c in (mon if e["arity"] == 1 else dy)
+                 if not any(N.is_extreme(x) for a in c[1] for x in N.leaves_of(a))][: env.budget(40, 160)]
+        res = V.pmap(run_template_case, [(e["text"], e["arity"], a, m) for _, a, m in cases], timeout=3, hard=8)
         c = collections.Counter(v if st == "ok" else st for st, v in res)
         rec["dynamic"] = dict(c)
         out[u["key"]] = rec
@@ -530,13 +690,15 @@ def vectorise_tie(env, mon, dy):
             seen.add(k)
             cases.append((args, modes))
     cases += [(["abc"], ["E"]), ([""], ["E"]), (["a", [1, 2]], ["E", "L"]), ([[1, 2], "xy"], ["T", "E"])]
-    cases = cases[: env.budget(700, 3000)]
+    cap = env.budget(700, 3000)
+    if len(cases) > cap:      # evenly, so that every shape stays represented
+        cases = [cases[(i * len(cases)) // cap] for i in range(cap)]
     res = V.pmap(run_vectorise, cases, timeout=5)
     good = []
     for (args, modes), (st, val) in zip(cases, res):
         if st != "ok":
             env.disagree("vectorise", {"args": args, "representation": modes}, "(a list)", f"{st}: {val}")
-        else:
+        elif not costly_literal(val):
             good.append((args, modes, val))
     f1 = "(fun a => VList false [VStr [102]%N; a])"
     f2 = "(fun a b => VList false [VStr [102]%N; a; b])"
@@ -563,7 +725,7 @@ def element_tie(env, gd, passed):
     cap = env.budget(10, 30)
     for rec in passed:
         key, shape, args, modes, got, leaves = rec
-        if len(leaves) <= 24 and len(per_key[(key, shape)]) < cap:
+        if len(leaves) <= 24 and len(per_key[(key, shape)]) < cap and not costly_literal([args, got, [r for _, r in leaves]]):
             per_key[(key, shape)].append(rec)
     sel = [r for rs in per_key.values() for r in rs]
 
@@ -626,11 +788,16 @@ def run(env):
         env.proof_broken("translator tools/gen_dispatch.py", gd["error"])
     V.import_repo()
     mon, dy = gen_inputs(env)
+    t0 = time.time()
     passed = oracle(env, gd, mon, dy)
+    t1 = time.time()
     vectorise_tie(env, mon, dy)
+    t2 = time.time()
     if env.coq_ok:
         element_tie(env, gd, passed)
+    t3 = time.time()
     dynamic_only(env, gd, mon, dy)
+    V.log(f"[C08] phases: oracle {t1 - t0:.0f}s, vectorise tie {t2 - t1:.0f}s, element tie {t3 - t2:.0f}s, dynamic-only {time.time() - t3:.0f}s")
     for p in passed[:: max(1, len(passed) // 6)][:6]:
         env.sample({"element": p[0], "shape": p[1], "args": p[2], "representation": p[3], "result": p[4]})
     env.sample({"obligation": f"forall e, In e curated -> entry_ok doc_overloads e = true ({len(gd['curated'])}-entry sweep by vm_compute)"})
